@@ -77,7 +77,7 @@ func c07Hist(ctx *Ctx, idx int) *Hist {
 	for i := 0; i < 4 && !h.E.Failed(); i++ {
 		n := h.Names[0]
 		v := h.nextVal()
-		if idx%pick(ctx.Tier, 4, 16) == 2 && i < 2 {
+		if idx%pick(ctx.Tier, 4, 17) == 2 && i < 2 {
 			// values longer than any buffer: whatever pieces they are read in, each read can fail
 			if want := []int{65536, 150000, 131072}[(idx/4+i)%3]; want > len(v) {
 				v = append(v, r.Bytes(want-len(v))...)
